@@ -76,6 +76,9 @@ func vfStartSession(r *vfRun, ops []vfOp) *vfSession {
 		for _, f := range vfInitFiles {
 			os.WriteFile(s.root+"/"+f.p, vfFill(s.tag^vfHashStr(f.p), 0, f.n), 0o644)
 		}
+		if n := int(sc.cfg("bigfile", 0)); n > 0 {
+			os.WriteFile(s.root+"/big", vfFill(s.tag^vfHashStr("big"), 0, n), 0o644)
+		}
 		os.Symlink("f0", s.root+"/l0")
 		os.Symlink("d", s.root+"/ld")
 		os.Symlink("nowhere", s.root+"/ldang")
@@ -85,6 +88,9 @@ func vfStartSession(r *vfRun, ops []vfOp) *vfSession {
 		s.fs.addDir("/d")
 		for _, f := range vfInitFiles {
 			s.fs.addFile("/"+f.p, vfFill(s.tag^vfHashStr(f.p), 0, f.n))
+		}
+		if n := int(sc.cfg("bigfile", 0)); n > 0 {
+			s.fs.addFile("/big", vfFill(s.tag^vfHashStr("big"), 0, n))
 		}
 		s.fs.nodes["/l0"] = &sfNode{kind: 'l', target: "f0", mode: os.ModeSymlink | 0o777, mtime: 946684800}
 		s.fs.parkData = sc.cfg("parkdata", 0) != 0
@@ -96,6 +102,9 @@ func vfStartSession(r *vfRun, ops []vfOp) *vfSession {
 		s.srv = vfStartServer(sim, 1, alloc, s.fs, int(sc.cfg("hopt", 0)), "", false, "", maxTx)
 	}
 	s.wc = vfNewWireClient(sim, s.srv.c2s, s.srv.s2c, ops)
+	if maxTx > 200000 {
+		s.wc.framer.max = 4 << 20 // the server may be configured to send frames larger than its own receive limit
+	}
 	s.wc.window = int(sc.cfg("window", 0))
 	s.wc.halfCls = sc.cfg("halfclose", 0) != 0
 	s.wc.dataTag = s.tag
